@@ -211,6 +211,22 @@ def run(ctx):
                     return show(strip_casts(atom)) == ds and truth
                 ok = G.gated(f, n, G.edges_where(f, nonzero))
                 ctx.ob("R15.3", "%s|%s" % (f.name, _norm(show(n))), ok, f.loc(n), "integer `%s` is %sguarded against a zero divisor" % (show(n), "" if ok else "NOT "))
+                if (n.get("t") or "") in ("int", "long", "long long"):
+                    def not_min_by_minus_one(atom, truth, ds=ds):
+                        c = G.cmp_atom(atom)
+                        if not c:
+                            return False
+                        op, a, b = c
+                        o = op if truth else G.NEG[op]
+                        for x, y in ((a, b), (b, a)):
+                            if x is not None and show(x) == ds and const_int(y) == -1 and o == "!=":
+                                return True
+                            if const_int(y) in (-2147483648, -9223372036854775808) and o == "!=":
+                                return True
+                        return False
+                    ok2 = G.gated(f, n, G.edges_where(f, not_min_by_minus_one))
+                    ctx.ob("R15.3", "%s|%s|min-by-minus-one" % (f.name, _norm(show(n))), ok2, f.loc(n),
+                           "signed `%s` is %sguarded against INT_MIN %s -1, which raises SIGFPE on x86" % (show(n), "" if ok2 else "NOT ", n["op"]))
     ctx.floor("R15.3", "integer divisions with a computed divisor", n_div, 2)
 
     # ------------------------------------------------------------ R15.6
